@@ -2,16 +2,20 @@
 """Fail-closed translator of the OMEN level / keyspace kernels from Python to Gallina.
 
     /venv/bin/python harness/translate_omen_level.py            print the generated text
-    /venv/bin/python harness/translate_omen_level.py --write    write coq/gen/OmenLevel_gen.v
+    /venv/bin/python harness/translate_omen_level.py --write    write coq/gen/OmenLevel_gen.v and
+                                                                coq/gen/OmenKeyspace_gen.v
 
 Sources (only parsed with `ast`, never imported or executed):
   lib_trainer/omen/evaluate_password.py   find_omen_level, _rec_calc_keyspace, calc_omen_keyspace
   lib_scorer/omen_scorer.py               OmenScorer.parse  (and the one line of OmenScorer.__init__
                                           that defines self.max_len)
-The output (coq/gen/OmenLevel_gen.v) targets the runtime coq/theories/OmenRt.v;
-coq/theories/OmenLevelGenProofs.v proves each generated definition equal to the
-hand-written model of coq/theories/OmenLevel.v / OmenKeyspace.v that the theorems
-of C11 / C18 are about.  A change of one of these functions changes the generated
+The output targets the runtime coq/theories/OmenRt.v: coq/gen/OmenLevel_gen.v holds
+find_omen_level and OmenScorer.parse (C11), coq/gen/OmenKeyspace_gen.v holds
+_rec_calc_keyspace and calc_omen_keyspace (C18), so that a change of one group only
+touches the property it belongs to.  coq/theories/OmenLevelGenProofs.v and
+OmenKeyspaceGenProofs.v prove each generated definition equal to the hand-written
+model of coq/theories/OmenLevel.v / OmenKeyspace.v that the theorems of C11 / C18 are
+about.  A change of one of these functions changes the generated
 text and the equality proofs are re-checked against it on every run.
 
 How Python values are represented (the representation is the trusted part):
@@ -79,7 +83,9 @@ if HERE not in sys.path:
 import common  # noqa: E402
 from translate_kernel import TranslateError, _paren, _comment, _close  # noqa: E402
 
-OUT = os.path.join("gen", "OmenLevel_gen.v")
+OUT_LEVEL = os.path.join("gen", "OmenLevel_gen.v")
+OUT_KEYSPACE = os.path.join("gen", "OmenKeyspace_gen.v")
+OUTS = (OUT_LEVEL, OUT_KEYSPACE)
 SRC_EVAL = "lib_trainer/omen/evaluate_password.py"
 SRC_SCORER = "lib_scorer/omen_scorer.py"
 
@@ -102,15 +108,15 @@ VALUE_KINDS = ("int", "bool", "str", "char", "entry", "linfo")     # what a loca
 COQ_TYPE = {"int": "Z", "str": "ostr", "trainer": "ttab", "scorer": "scorer", "counter": "counter"}
 
 SPECS = [
-    dict(src=SRC_EVAL, cls=None, py="find_omen_level", coq="py_find_omen_level",
+    dict(out=OUT_LEVEL, src=SRC_EVAL, cls=None, py="find_omen_level", coq="py_find_omen_level",
          params=[("omen_trainer", TRAINER), ("password", STR)], ret=INT, state=False),
-    dict(src=SRC_EVAL, cls=None, py="_rec_calc_keyspace", coq="py_rec_calc_keyspace",
+    dict(out=OUT_KEYSPACE, src=SRC_EVAL, cls=None, py="_rec_calc_keyspace", coq="py_rec_calc_keyspace",
          params=[("omen_trainer", TRAINER), ("level", INT), ("length", INT), ("ip", STR)], ret=INT,
          state=True, recursive=True),
-    dict(src=SRC_EVAL, cls=None, py="calc_omen_keyspace", coq="py_calc_omen_keyspace",
+    dict(out=OUT_KEYSPACE, src=SRC_EVAL, cls=None, py="calc_omen_keyspace", coq="py_calc_omen_keyspace",
          params=[("omen_trainer", TRAINER), ("max_level", INT), ("max_keyspace", INT)], ret=COUNTER,
          state=True, defaults={"max_level": 18, "max_keyspace": 10000000000}),
-    dict(src=SRC_SCORER, cls="OmenScorer", py="parse", coq="py_scorer_parse",
+    dict(out=OUT_LEVEL, src=SRC_SCORER, cls="OmenScorer", py="parse", coq="py_scorer_parse",
          params=[("self", SCORER), ("password", STR)], ret=INT, state=False),
 ]
 
@@ -972,15 +978,16 @@ def _check_module(path, tree, names):
             raise TranslateError("%s:%d: global / nonlocal of a translated name" % (path, n.lineno))
 
 
-def render(repo=None):
-    """-> text of gen/OmenLevel_gen.v for the sources of the current working tree"""
+def render(out, repo=None):
+    """-> text of the generated file `out` (one of OUTS) for the sources of the current working tree"""
     repo = repo or common.REPO
+    specs = [s for s in SPECS if s["out"] == out]
     trees = {}
-    for rel in (SRC_EVAL, SRC_SCORER):
+    for rel in sorted({s["src"] for s in specs}):
         trees[rel] = _parse(repo, rel)
         _check_module(trees[rel][0], trees[rel][1], {s["py"] for s in SPECS if s["src"] == rel})
     parts, done = [], {}
-    for spec in SPECS:
+    for spec in specs:
         path, tree = trees[spec["src"]]
         scope, cls_node = tree.body, None
         if spec["cls"]:
@@ -999,16 +1006,17 @@ def render(repo=None):
         text, _sha = FunctionTranslator(path, defs[0], spec, visible, cls_node).translate()
         parts.append(text)
         done[spec["py"]] = spec
+    proofs = "OmenLevelGenProofs.v" if out == OUT_LEVEL else "OmenKeyspaceGenProofs.v"
     head = (
         "(* GENERATED by harness/translate_omen_level.py from the Python source of the current\n"
-        "   working tree (%s, %s) on every run of a check.  Do not edit.\n"
+        "   working tree (%s) on every run of a check.  Do not edit.\n"
         "   Each definition is the line-by-line image of one Python function in the subset\n"
         "   documented in the translator; the numbers in the comments are source lines.\n"
-        "   theories/OmenLevelGenProofs.v proves these definitions equal to the hand-written\n"
-        "   models of theories/OmenLevel.v and theories/OmenKeyspace.v. *)\n"
+        "   theories/%s proves these definitions equal to the hand-written\n"
+        "   models of theories/OmenLevel.v / OmenKeyspace.v. *)\n"
         "From Coq Require Import List Arith Bool NArith ZArith.\n"
         "From Pcfg Require Import KernelRt OmenSpec OmenLevel OmenRt.\n"
-        "Import ListNotations.\n\n" % (SRC_EVAL, SRC_SCORER))
+        "Import ListNotations.\n\n" % (", ".join("%s: %s" % (s["src"], s["py"]) for s in specs), proofs))
     return head + "\n".join(parts)
 
 
@@ -1021,18 +1029,27 @@ def failure_text(err):
 
 
 def write(repo=None):
+    """write every generated file; a group that cannot be translated gets the failure text, the
+    others are still written; the first error is raised at the end"""
     import extract_consts as X
-    path = os.path.join(common.COQ, OUT)
-    try:
-        text = render(repo)
-    except Exception as e:
-        X.write(path, failure_text("%s: %s" % (type(e).__name__, e)))
-        raise
-    return X.write(path, text)
+    changed, first = False, None
+    for out in OUTS:
+        path = os.path.join(common.COQ, out)
+        try:
+            text = render(out, repo)
+        except Exception as e:
+            changed |= bool(X.write(path, failure_text("%s: %s" % (type(e).__name__, e))))
+            first = first or e
+            continue
+        changed |= bool(X.write(path, text))
+    if first is not None:
+        raise first
+    return changed
 
 
 if __name__ == "__main__":
     if "--write" in sys.argv[1:]:
-        print("written" if write() else "unchanged", os.path.join(common.COQ, OUT))
+        print("written" if write() else "unchanged", [os.path.join(common.COQ, o) for o in OUTS])
     else:
-        sys.stdout.write(render())
+        for o in OUTS:
+            sys.stdout.write(render(o) + "\n")
